@@ -112,6 +112,13 @@ func doPackage(configPath, target, packager string) error {
 		return err
 	}
 
+	// a write error may only surface when the file is closed: the package is
+	// incomplete then and must not be left behind either
+	if err := f.Close(); err != nil {
+		os.Remove(target)
+		return err
+	}
+
 	fmt.Printf("created package: %s\n", target)
-	return f.Close()
+	return nil
 }
